@@ -584,7 +584,7 @@ RULE_ADDENDA_4 = {
     'C05': ' One case in twenty uses a Stokes container whose components have different dtypes under component-wise operators.',
     'C06': ' Closed forms include integer-valued scalars; one closed case in ten round-trips a non-square axis permutation on leaves of different ranks.',
     'C08': ' Harness classes include complex Hermitian operators under the public semidefinite decorators.',
-    'C09': ' Half-precision data (float16, bfloat16) in a fifth of the cases; 16 (quick) / 64 cases with bands of 16 385 to 40 000 values.',
+    'C09': ' Half-precision data (float16, bfloat16) in a fifth of the cases; 8 (quick) / 48 cases with bands of 16 385 to 40 000 values.',
     'C10': ' Chains include row-times-column products whose block products are scalars.',
     'C11': ' A third of the multi-leaf cases give the leaves different dtypes (values in the narrowest).',
     'C12': ' A quarter of the pack part reduces H.T @ H / H @ H.T chains in which the selection pair only becomes adjacent after its neighbours cancelled.',
